@@ -64,7 +64,9 @@ def check_codec(chk, tier: str, pool, f_model) -> None:
       for way in codec.WAYS:
         if c > 0 and way in codec.FIRST_CONC_ONLY:
           continue
-        rows.append(codec.observe(e['v'], vi, cc, way))
+        row = codec.observe(e['v'], vi, cc, way)
+        if row is not None:
+          rows.append(row)
   chk.notes['rows_observed'] = len(rows)
   futs = []
   k = 0
